@@ -2,10 +2,12 @@
 package c16
 
 import (
-	"io"
 	"bytes"
 	"errors"
 	"fmt"
+	"io"
+	"io/fs"
+	"syscall"
 	"time"
 
 	"github.com/philpearl/avro"
@@ -31,13 +33,32 @@ type faultyWriter struct {
 	// transient: only write failAt fails; later writes succeed again (a connection that hit a deadline once)
 	transient bool
 	snap      []byte
+	// err is the error value the failing write returns (errInjected unless set): callers look for THEIR error in
+	// what the library returns, whatever its dynamic type
+	err error
+	// arm2: the next write fails (accepting nothing) with err2 — a second, different failure later in the history
+	arm2, fired2 bool
+	err2         error
 }
+
+func (w *faultyWriter) injected() error {
+	if w.err != nil {
+		return w.err
+	}
+	return errInjected
+}
+
+var errSecond = errors.New("second injected write failure, a different value")
 
 func (w *faultyWriter) Write(p []byte) (int, error) {
 	idx := w.writes
 	w.writes++
+	if w.arm2 {
+		w.arm2, w.fired2 = false, true
+		return 0, w.err2
+	}
 	if w.failed && !w.transient {
-		return 0, errInjected
+		return 0, w.injected()
 	}
 	if idx == w.failAt {
 		w.failed = true
@@ -58,7 +79,7 @@ func (w *faultyWriter) Write(p []byte) (int, error) {
 		}
 		w.buf.Write(p[:n])
 		w.snap = append([]byte(nil), w.buf.Bytes()...) // what the writer had accepted when it failed
-		return n, errInjected
+		return n, w.injected()
 	}
 	w.buf.Write(p)
 	return len(p), nil
@@ -87,9 +108,20 @@ func (w *richWriter) WriteByte(b byte) error {
 
 // numModes: modes 0..7 = accept kind (mode%4) × {persistent, transient}; modes 8 and 9 = accept 0 bytes,
 // persistent / transient, through a richWriter.
-const numModes = 10
+const numModes = 14
 
 func newFaulty(k, mode int) (*faultyWriter, io.Writer) {
+	if mode >= 10 {
+		// modes 10..13: accept 0 bytes, persistent / transient, and the error is not a plain sentinel: a
+		// *fs.PathError (what a failing *os.File returns) or an error that itself wraps another
+		f := &faultyWriter{failAt: k, mode: 0, transient: mode%2 == 1}
+		if mode < 12 {
+			f.err = &fs.PathError{Op: "write", Path: "/mnt/out.avro", Err: syscall.ENOSPC}
+		} else {
+			f.err = fmt.Errorf("remote sink: %w", io.ErrClosedPipe)
+		}
+		return f, f
+	}
 	if mode >= 8 {
 		f := &faultyWriter{failAt: k, mode: 0, transient: mode == 9}
 		return f, &richWriter{faultyWriter: f}
@@ -200,6 +232,9 @@ func runHistory(c *fw.Ctx, cf config, h []int) {
 			cr = rich
 		}
 		for k := 0; k < cr.total; k++ {
+			if mode >= 10 && k < cr.hdrWrites && mode%2 == 1 {
+				continue // a failed header write ends the attempt: transient and persistent are the same there
+			}
 			c.Eval(1)
 			c.Nontrivial(fmt.Sprintf("%s/%s/%d/%s/%d/%d", cf.k.Name, cf.codec, cf.bs, encdrv.HistString(cf.k, h), k, mode))
 			oneFault(c, cf, h, k, mode, cr.out, cr.hdrLen, cr.hdrWrites, cr.writeOfCall, desc, locus)
@@ -227,7 +262,7 @@ func oneFault(c *fw.Ctx, cf config, h []int, k, mode int, cleanOut []byte, hdrLe
 		if k < hdrWrites {
 			if err == nil {
 				c.Violation("missing-error|"+locus+"|header", "NewEncoderFor returned nil although the header write failed — "+d2, detail)
-			} else if !errors.Is(err, errInjected) {
+			} else if !errors.Is(err, fw_.injected()) {
 				c.Violation("error-not-wrapped|"+locus+"|header", fmt.Sprintf("NewEncoderFor error %v does not wrap the writer's error — %s", err, d2), detail)
 			}
 			checkPrefix(c, fw_.snap, cleanOut, hdrLen, locus, role, d2, detail)
@@ -255,7 +290,7 @@ func oneFault(c *fw.Ctx, cf config, h []int, k, mode int, cleanOut []byte, hdrLe
 			if triggers {
 				if err == nil {
 					c.Violation("missing-error|"+locus+"|"+role, fmt.Sprintf("call %d (%s) returned nil although its write #%d failed — %s", i, cf.k.OpName(op), k, d2), detail)
-				} else if !errors.Is(err, errInjected) {
+				} else if !errors.Is(err, fw_.injected()) {
 					c.Violation("error-not-wrapped|"+locus+"|"+role, fmt.Sprintf("call %d error %v does not wrap the writer's error — %s", i, err, d2), detail)
 				}
 				checkPrefix(c, fw_.snap, cleanOut, hdrLen, locus, role, d2, detail)
@@ -263,6 +298,26 @@ func oneFault(c *fw.Ctx, cf config, h []int, k, mode int, cleanOut []byte, hdrLe
 					// a writer that fails once accepts later writes again: what it holds when the failing CALL
 					// returns (not just at the instant of the failure) must still be a prefix of the fault-free run
 					checkPrefix(c, fw_.buf.Bytes(), cleanOut, hdrLen, locus, role+"|at-call-return", d2, detail)
+					// the caller carries on with the same encoder, and the sink fails once more, with a
+					// DIFFERENT error value, at the next write: the call that meets it reports THAT error
+					fw_.arm2, fw_.err2 = true, errSecond
+					rest := append(append([]int(nil), h[i+1:]...), cf.k.NumOps()-1, 0, cf.k.NumOps()-1)
+					for j, op2 := range rest {
+						var err2 error
+						if cf.k.IsFlush(op2) {
+							err2 = e.Flush()
+						} else {
+							err2 = e.Encode(op2)
+						}
+						if fw_.fired2 {
+							if err2 == nil {
+								c.Violation("missing-error|"+locus+"|second-failure", fmt.Sprintf("after the first failure, call +%d (%s) returned nil although its write failed — %s", j+1, cf.k.OpName(op2), d2), detail)
+							} else if !errors.Is(err2, errSecond) {
+								c.Violation("error-not-wrapped|"+locus+"|second-failure", fmt.Sprintf("after the first failure, call +%d met a second write failure (%v) but returned %v, which does not wrap it — %s", j+1, errSecond, err2, d2), detail)
+							}
+							break
+						}
+					}
 				}
 				return
 			}
@@ -359,7 +414,7 @@ func runFileWriter(c *fw.Ctx, codec string, nblocks int) {
 					}
 					if errs[call] == nil {
 						c.Violation("missing-error|"+locus+"|"+role, fmt.Sprintf("call %d returned nil although its write failed — %s", call, d2), d2)
-					} else if !errors.Is(errs[call], errInjected) {
+					} else if !errors.Is(errs[call], w.injected()) {
 						c.Violation("error-not-wrapped|"+locus+"|"+role, fmt.Sprintf("call %d error %v does not wrap the writer's error — %s", call, errs[call], d2), d2)
 					}
 					// the prefix is what was accepted up to and including the failing write
